@@ -1,5 +1,83 @@
-From PV Require Import Lib.Base Model.Prng Model.Core.
-Open Scope Q_scope.
-Theorem C01_placeholder_pvalue_def : forall c H reps, perm_pvalue c H reps = (qn H + qn c) / (qn reps + qn c).
-Proof. reflexivity. Qed.
-Print Assumptions C01_placeholder_pvalue_def.
+(* C01 -- unstratified tests: the p-value is (H+c)/(reps+c) with H a Binomial(reps, pstar) count.
+   Statements only; proofs in Proofs/CoreProofs.v, Proofs/BinomialLaw.v, Lib/Shuffle*.v, Lib/Counting.v. *)
+From PV Require Import Lib.Base Model.Prng Model.Core Proofs.CoreProofs.
+From mathcomp Require Import all_ssreflect.
+From PV Require Import Lib.Shuffle Lib.ShuffleTape Lib.Counting Proofs.BinomialLaw.
+Local Open Scope nat_scope.
+
+(* (1) p-value formula: for every data set, statistic, alternative, plus1, reps and EVERY tape on which the
+   model test completes, p = (H + c)/(reps + c) with H the number of simulated values at least as extreme as
+   the observed one in the stated direction (ties count), 'two-sided' = min(1, 2 min(lower, upper)),
+   and exactly reps values are simulated.  [pv_textbook] is that formula. *)
+Theorem C01_two_sample_core_pvalue : forall s pot nx a reps plus1 t r,
+  two_sample_core s pot nx a reps plus1 t = Ok r ->
+  length (dist r) = reps /\ (pval r == pv_textbook a (cc plus1) (tstat r) (dist r))%Q.
+Proof. exact two_sample_core_pvalue. Qed.
+Print Assumptions C01_two_sample_core_pvalue.
+
+Theorem C01_one_sample_pvalue : forall x y s a reps plus1 t r,
+  one_sample x y s a reps plus1 t = Ok r ->
+  length (dist r) = reps /\ (pval r == pv_textbook a (cc plus1) (tstat r) (dist r))%Q.
+Proof. exact one_sample_pvalue. Qed.
+Print Assumptions C01_one_sample_pvalue.
+
+(* corr / spearman_corr and k_sample assemble their p-values from the tail counts by definition *)
+Theorem C01_corr_ksample_pvalue_def : forall a tst sims plus1,
+  (corr_pvalue a tst sims plus1 == pv_textbook a (cc plus1) tst sims)%Q /\
+  ksample_pvalue tst sims plus1 = pv_textbook Greater (cc plus1) tst sims.
+Proof. intros a tst sims plus1. split; [exact (corr_pvalue_textbook a tst sims plus1)|reflexivity]. Qed.
+Print Assumptions C01_corr_ksample_pvalue_def.
+
+(* (2) the reported statistic is the statistic of the data as given *)
+Theorem C01_observed_is_stat_of_data : forall x y s a reps plus1 t r,
+  (two_sample x y s a reps plus1 t = Ok r -> tstat r = eval2 s x y) /\
+  (forall s1 r1, one_sample x None s1 a reps plus1 t = Ok r1 -> tstat r1 = eval1 s1 x).
+Proof.
+  intros x y s a reps plus1 t r. split; [exact (two_sample_observed x y s a reps plus1 t r)|].
+  intros s1 r1. exact (one_sample_observed x s1 a reps plus1 t r1).
+Qed.
+Print Assumptions C01_observed_is_stat_of_data.
+
+(* (3) rearrangements are uniform: over the answer space of one repetition (all answers within their bounds,
+   equally likely under an ideal generator) each permutation of a duplicate-free vector arises exactly once,
+   for the Fisher-Yates permute (corr, k_sample) and for random.shuffle's pick (two_sample_core) *)
+Theorem C01_rearrangements_uniform : forall (T : eqType) (l : seq T), uniq l ->
+  perm_eq [seq out (permute l d) | d <- draws (size l)] (permutations l) /\
+  perm_eq [seq shuf (@last_pick T) l d | d <- draws (size l)] (permutations l).
+Proof. intros T l U. split; [exact (permute_uniform U)|exact (last_uniform U)]. Qed.
+Print Assumptions C01_rearrangements_uniform.
+
+(* (4) H is binomial.  Tests that re-permute the original vector (corr, spearman_corr, k_sample):
+   among the (n!)^reps equally likely answer sequences, the number on which exactly h of the reps simulated
+   rearrangements are "extreme" is C(reps,h) a^h (n!-a)^(reps-h), a = #{permutations of x that are extreme},
+   i.e. H ~ Binomial(reps, a/n!) with a/n! the exact permutation p-value; any x without ties, any predicate *)
+Theorem C01_H_binomial_fresh : forall (T : eqType) (x : seq T) (extreme : seq T -> bool) r h, uniq x ->
+  count (fun ds => count extreme (if perm_loop x r (flatten ds) is Ok at' then at'.1 else [::]) == h)
+        (tuples (draws (size x)) r)
+  = 'C(r, h) * count extreme (permutations x) ^ h * ((size x)`! - count extreme (permutations x)) ^ (r - h).
+Proof. intros T x extreme r h U. exact (fresh_hits_binomial U extreme r h). Qed.
+Print Assumptions C01_H_binomial_fresh.
+
+(* two_sample_core keeps shuffling the index list left by the previous repetition; the law is the same
+   for every starting order: states rr ds are the index lists evaluated, dom1 n the answers of one shuffle *)
+Theorem C01_H_binomial_two_sample : forall n (extreme : seq nat -> bool) r h rr, 0 < n ->
+  perm_eq rr (iota 0 n) ->
+  count (fun ds => count extreme (states rr ds) == h) (tuples (dom1 n) r)
+  = 'C(r, h) * count extreme (permutations (iota 0 n)) ^ h
+    * (n`! - count extreme (permutations (iota 0 n))) ^ (r - h).
+Proof. intros n extreme r h rr npos prr. exact (chained_hits_binomial npos extreme r h prr). Qed.
+Print Assumptions C01_H_binomial_two_sample.
+
+(* ... and [states] is what the model's loop evaluates on those answer sequences (whole tape consumed) *)
+Theorem C01_two_sample_core_evaluates_states : forall n s pot nx r (rr : seq nat) ds, 0 < n ->
+  size rr = n -> perm_eq rr (iota 0 n) -> ds \in tuples (dom1 n) r ->
+  exists dv, core_loop s pot nx rr r (flatten ds) = Ok (dv, states rr ds, [::]).
+Proof. intros n s pot nx r rr ds npos. exact (core_loop_states npos s pot nx (r:=r) (rr:=rr) (ds:=ds)). Qed.
+Print Assumptions C01_two_sample_core_evaluates_states.
+
+Example C01_nonvacuous :
+  match two_sample [1;2;3]%Q [2;3]%Q MeanDiff TwoSided 2 true [2;0;1;0; 4;1;1;0]%nat with
+  | Ok r => Qeq_bool (pval r) 1 && Nat.eqb (List.length (dist r)) 2
+  | Err _ => false
+  end = true.
+Proof. vm_compute. reflexivity. Qed.
